@@ -205,9 +205,11 @@ func c12Unescape(c *Ctx) {
 			return
 		}
 		for _, fc := range factsAt(in.Block()) {
-			op, _, y, ok := cmpFact(fc)
-			if lc, _ := callOf(y); ok && op == token.EQL && lc != nil && calleeID(&lc.Call) == "builtin len" {
-				full = true
+			op, x, y, ok := cmpFact(fc)
+			for _, side := range []ssa.Value{x, y} {
+				if lc, _ := callOf(side); ok && op == token.EQL && lc != nil && calleeID(&lc.Call) == "builtin len" {
+					full = true
+				}
 			}
 		}
 	})
